@@ -189,7 +189,8 @@ func gen(t *rapid.T) Case {
 		s.Handler.Drain = false
 		s.Handler.Resp = msg(5, 5)
 		lit := map[string]string{"cancel": "canceled", "deadline": "deadline"}[c.Mode]
-		s.Handler.Final = &prog.ErrSpec{Literal: lit}
+		// (bare, or wrapped the way handlers add context: errors.Is still finds it)
+		s.Handler.Final = &prog.ErrSpec{Literal: lit, Wrap: rapid.SampledFrom([]string{"", "w"}).Draw(t, "wrapCtxErr")}
 		s.Client.Msgs = []prog.Msg{*msg(0, 10)}
 		s.Client.Ops = []prog.COp{{Op: "send", Msg: msg(0, 10)}, {Op: "closereq"}, {Op: "recvall"}, {Op: "closeresp"}}
 	}
